@@ -57,7 +57,7 @@ def on_fresh(d: DFA, f):
     """Run f on a fresh copy that stays referenced during the call (cached_method keeps
     only a weak reference to the receiver: `d.copy().isempty()` raises RuntimeError)."""
     c = d.copy()
-    return call(lambda: f(c))
+    return L.guarded(lambda: f(c))
 
 
 # --------------------------------------------------------------- observing the real object
@@ -355,19 +355,30 @@ def corpus():
 
 def run(ctx: Ctx):
     rng = ctx.rng
+    def hanging():
+        if L.TIMEOUTS >= 3:
+            ctx.note(f"{L.TIMEOUTS} real calls did not return within {L.TIMEOUT_S}s; run cut short")
+            return True
+        return False
     for name, d in corpus():
         check_dfa(ctx, d, "corpus", uniform=True)
+        if hanging():
+            return
     # bounded-exhaustive
     for n_states in (1, 2):
         for d in gen.all_dfas(n_states, ("a", "b")):
             check_dfa(ctx, d, "exhaustive", uniform=(ctx.thorough() or ctx.evaluations % 5 == 0), light=not ctx.thorough())
+            if hanging():
+                return
     ctx.exhaustive("all DFAs (complete and partial, all final sets) with ≤2 states over {a,b} × every k ≤ "
                    + ("6" if ctx.thorough() else "5") + " (count, words, all DP tables), min/max/empty/finite, cardinality/len, "
                    "iteration prefixes, random_word" + (" incl. exact output distribution for k ≤ 3" if ctx.thorough() else ""))
-    for _ in range(ctx.budget(350, 12000)):
+    for _ in range(ctx.budget(900, 40000)):
         d, kind = L.shaped_dfa(rng, 6)
         ctx.stat(f"kind:{kind}")
         check_dfa(ctx, d, "random", uniform=rng.random() < 0.15)
+        if hanging():
+            return
 
 
 def replay(ctx: Ctx, path: str) -> int:
